@@ -35,6 +35,8 @@ func bfsAlphabet() []Op {
 		{Kind: OpPConnect, ID: idB, Child: idC, K: 3, Meta: &cm},
 		{Kind: OpPDisconnect, ID: idA, Child: idC},
 		{Kind: OpPDisconnect, ID: idB, Child: idC},
+		{Kind: OpPConnect, ID: idA, Child: idD, K: 5, Meta: &cm}, // a sibling of C below A
+		{Kind: OpPDisconnect, ID: idA, Child: idD},
 		{Kind: OpLAdd, L: smb("smb1", "pipe1")},
 		{Kind: OpLAdd, L: ext("ext1", "ep1")},
 		{Kind: OpLRemove, Name: "smb1"},
